@@ -331,6 +331,7 @@ type w13Instance struct {
 	stuck   []*w13Handler
 	created time.Time
 
+	noStop    bool // executors could not be put in place: changing db.status would be unsafe
 	frozenDbs []*LockDB
 	held      []*PriorityMutex
 	frozen    int
@@ -419,9 +420,7 @@ func (in *w13Instance) retire() {
 			}
 		}
 	}
-	if !in.dirty {
-		in.ensureExecutors()
-	}
+	in.ensureExecutors()
 	in.freeze()
 	w13SwitchMu.Lock()
 	old := w13Prev
@@ -441,7 +440,16 @@ func (in *w13Instance) retire() {
 // when the harness stops the instance.
 func (in *w13Instance) ensureExecutors() {
 	for _, db := range in.allDbs() {
-		db.glock.Lock()
+		locked := false
+		for try := 0; try < 400 && !locked; try++ { // a panicked handler cannot hold db.glock, but be safe
+			if locked = db.glock.TryLock(); !locked {
+				time.Sleep(50 * time.Microsecond)
+			}
+		}
+		if !locked {
+			in.dirty, in.noStop = true, true
+			continue
+		}
 		for i := range db.executors {
 			if db.executors[i] == nil {
 				db.executors[i] = NewLockDBExecutor(db, db.managerGlocks[i])
@@ -481,7 +489,7 @@ func (in *w13Instance) freeze() {
 	for _, db := range in.frozenDbs {
 		for _, g := range db.managerGlocks {
 			ok := false
-			for try := 0; try < 200 && !ok; try++ {
+			for try := 0; try < 2000 && !ok; try++ {
 				if ok = g.mutex.TryLock(); !ok {
 					time.Sleep(50 * time.Microsecond)
 				}
@@ -537,7 +545,7 @@ func (in *w13Instance) close() {
 					}
 					held++
 				}
-				if held == len(db.managerGlocks) {
+				if held == len(db.managerGlocks) && !in.noStop {
 					db.status = STATE_CLOSE
 				}
 				for i := 0; i < held; i++ {
@@ -560,8 +568,10 @@ func (in *w13Instance) close() {
 				for i := uint16(0); i < db.managerMaxGlocks; i++ {
 					db.managerGlocks[i].LowPriorityLock()
 					if ex := db.executors[i]; ex != nil {
-						ex.Close() // safe: both Run goroutines had started before the state changed (ensureExecutors)
-						db.executors[i] = nil
+						// safe: both Run goroutines had started before the state changed (ensureExecutors).
+						// The slot is left in place: a straggler that passed the state test of
+						// PushExecutorLockCommand earlier must not create a fresh executor now.
+						ex.Close()
 					}
 					in.slock.GetAof().CloseAofChannel(db.aofChannels[i])
 					if db.subscribeChannels != nil {
@@ -620,6 +630,26 @@ func w13LockFrame(cmdType byte, reqId byte, timeout uint16, expried uint16) []by
 
 func w13ProbeWatchdog() time.Duration {
 	return time.Duration(vEnvInt("VERIF_C13_PROBE_MS", 20000)) * time.Millisecond
+}
+
+func w13SettleTime() time.Duration {
+	return time.Duration(vEnvInt("VERIF_C13_SETTLE_MS", 400)) * time.Millisecond
+}
+
+// releaseWaiters forces the time-out of every queued lock request of the instance.
+func (in *w13Instance) releaseWaiters() {
+	defer func() {
+		if r := recover(); r != nil {
+			fmt.Printf("VERIF-NOTE C13 forced time-out panicked (ignored, FLUSHDB path is outside the property): %v\n", r)
+		}
+	}()
+	for _, db := range in.allDbs() {
+		for i := uint16(0); i < db.managerMaxGlocks; i++ {
+			db.managerGlocks[i].LowPriorityLock()
+			db.flushTimeOut(i, true)
+			db.managerGlocks[i].LowPriorityUnlock()
+		}
+	}
 }
 
 func w13HandlerWatchdog() time.Duration {
@@ -831,6 +861,7 @@ type w13ConnInfo struct {
 	OutLen   int
 	Reads    int
 	Finished bool
+	Released int // rounds of forced time-outs that were needed to end the handler
 }
 
 type w13Info struct {
@@ -880,11 +911,35 @@ func w13RunCase(c *w13Case) (info w13Info, fail *w13Failure) {
 		select {
 		case <-h.done:
 			ci.Finished = true
-		case <-time.After(w13HandlerWatchdog()):
+		case <-time.After(w13SettleTime()):
+			// The script is consumed and the handler is still busy: it waits for the answer to a queued
+			// lock (text commands are synchronous). Instead of sitting out a wall-clock wait of unknown
+			// length, let time "pass" for everything that is queued: the server's own forced time-out
+			// (LockDB.flushTimeOut, what FLUSHDB runs) answers every waiter with TIMEOUT.
+			deadline := time.Now().Add(w13HandlerWatchdog())
+			for !ci.Finished && time.Now().Before(deadline) {
+				in.releaseWaiters()
+				ci.Released++
+				select {
+				case <-h.done:
+					ci.Finished = true
+				case <-time.After(150 * time.Millisecond):
+				}
+				if ci.Released >= 40 && !ci.Finished {
+					select {
+					case <-h.done:
+						ci.Finished = true
+					case <-time.After(time.Until(deadline)):
+					}
+					break
+				}
+			}
+		}
+		if !ci.Finished {
 			in.dirty = true
 			in.stuck = append(in.stuck, h)
 			info.Conns = append(info.Conns, ci)
-			info.Inconclusive = fmt.Sprintf("handler of connection %d still running %v after the script ended (stream %s)", i, w13HandlerWatchdog(), w13Short(data))
+			info.Inconclusive = fmt.Sprintf("handler of connection %d still running %v after the script ended and %d forced time-outs (stream %s)", i, w13HandlerWatchdog(), ci.Released, w13Short(data))
 			return
 		}
 		conn.mu.Lock()
